@@ -130,7 +130,7 @@ func init() {
 			"faults placed after the last byte the reader consumes are not counted (the library never sees them)",
 			"WriteFile faults are injected by the kernel through RLIMIT_FSIZE with SIGXFSZ ignored (write returns EFBIG after a short write up to the limit)",
 		},
-		Require: []string{"write_faults_full_count", "write_faults_transient", "write_fault_files_above_64KiB", "write_faults_injected", "write_faults_short", "write_faults_after_header", "read_faults_returned", "read_faults_with_data", "writefile_faults", "unfaulted_writes", "read_faults_big_payload"},
+		Require: []string{"write_faults_full_count", "write_faults_transient", "write_faults_transient_short", "write_fault_files_above_64KiB", "write_faults_injected", "write_faults_short", "write_faults_after_header", "read_faults_returned", "read_faults_with_data", "writefile_faults", "unfaulted_writes", "read_faults_big_payload"},
 		Run:     runC10,
 	})
 }
@@ -158,15 +158,22 @@ func runC10(c *mon.Ctx) {
 		in := map[string]any{"history": a.desc, "size": len(b)}
 		// ---- destination faults
 		for _, k := range offsets {
-			for mode := 0; mode < 4; mode++ {
-				short := mode == 1
-				if mode == 3 {
+			for mode := 0; mode < 5; mode++ {
+				short := mode == 1 || mode == 4
+				if mode >= 3 {
 					c.Count("write_faults_transient", 1)
 				}
-				w := &faultWriter{limit: k, short: short, full: mode == 2, oneShot: mode == 3, err: writeFaultKinds[(k+int(i))%len(writeFaultKinds)]}
+				w := &faultWriter{limit: k, short: short, full: mode == 2, oneShot: mode >= 3, err: writeFaultKinds[(k+int(i))%len(writeFaultKinds)]}
+				if mode == 4 {
+					// the destination takes part of the data, says so, and works again afterwards
+					c.Count("write_faults_transient_short", 1)
+					if (k+int(i))%2 == 0 {
+						w.err = io.ErrShortWrite
+					}
+				}
 				var n int64
 				var err error
-				in["fault_offset"], in["short_write"], in["full_count_with_error"], in["error_kind"] = k, short, mode == 2, fmt.Sprintf("%T", w.err)
+				in["fault_offset"], in["short_write"], in["full_count_with_error"], in["error_kind"], in["transient"] = k, short, mode == 2, fmt.Sprintf("%T %v", w.err, w.err), mode >= 3
 				if mode == 2 {
 					c.Count("write_faults_full_count", 1)
 				}
@@ -332,14 +339,17 @@ func runC10(c *mon.Ctx) {
 					c.Violation("read-fault-swallowed", fmt.Sprintf("source failed with a non-EOF error at byte offset %d of %d (payload of %d bytes starts at %d) but ReadFrom returned nil error (value with %d tracks)", k, len(b), n, start, nt), in, "error", "nil")
 				}
 			}
-			for mode := 0; mode < 3; mode++ {
-				short := mode == 1
-				w := &faultWriter{limit: k, short: short, oneShot: mode == 2}
+			for mode := 0; mode < 4; mode++ {
+				short := mode == 1 || mode == 3
+				w := &faultWriter{limit: k, short: short, oneShot: mode >= 2}
+				if mode == 3 {
+					w.err = io.ErrShortWrite
+				}
 				_, err := s.WriteTo(w)
 				c.Count("write_faults_injected", 1)
 				c.Eval(1)
 				if w.failed > 0 && err == nil {
-					c.Violation("write-fault-swallowed", fmt.Sprintf("destination failed at byte offset %d of %d (short=%v, transient=%v) but WriteTo returned nil", k, len(b), short, mode == 2), in, "error", "nil")
+					c.Violation("write-fault-swallowed", fmt.Sprintf("destination failed at byte offset %d of %d (short=%v, transient=%v) but WriteTo returned nil", k, len(b), short, mode >= 2), in, "error", "nil")
 				}
 			}
 		}
